@@ -367,6 +367,58 @@ func c17tuples(c *core.Ctx, rng *core.Rng) {
 		}
 	}
 	c.Count("laws", "tuples")
+	// tuples of different lengths and with components of different formats (a union key): the comparison is total,
+	// antisymmetric, 0 exactly for equal tuples, and a proper prefix comes first
+	pool := [][]val.Value{{}, {val.Int32(1)}, {val.Int32(1), val.Int32(2)}, {val.Int32(1), val.String("a")}, {val.String("a")}, {val.String("a"), val.Int32(1)},
+		{val.Int32(2)}, {val.String("b"), val.String("a")}, {val.Int32(1), val.Int32(2), val.Int32(3)}, {val.Bool(true)}, {val.Bool(false), val.Int32(0)},
+		{val.Bits{Positions: 1, Labels: []string{"x"}}}, {val.Bits{Positions: 2, Labels: []string{"y"}}}, {val.Int32(1), nil}}
+	cmp := func(a, b []val.Value) (r int, err error) {
+		defer func() {
+			if p := recover(); p != nil {
+				err = fmt.Errorf("PANIC: %v", p)
+			}
+		}()
+		return sign(val.CompareVals(a, b)), nil
+	}
+	for i, a := range pool {
+		for j, b := range pool {
+			c.Evaluations++
+			c.Distinct(fmt.Sprint("mixed-tuples", i, j))
+			ab, e1 := cmp(a, b)
+			ba, e2 := cmp(b, a)
+			eq := func() (r bool) { defer func() { recover() }(); return val.EqualVals(a, b) }()
+			problem := ""
+			switch {
+			case e1 != nil:
+				problem = e1.Error()
+			case e2 != nil:
+				problem = e2.Error()
+			case ab != -ba:
+				problem = fmt.Sprintf("CompareVals(a,b)=%d but CompareVals(b,a)=%d", ab, ba)
+			case (ab == 0) != eq:
+				problem = fmt.Sprintf("CompareVals=%d but EqualVals=%v", ab, eq)
+			case len(a) < len(b) && func() bool { return val.EqualVals(a, b[:len(a)]) }() && ab != -1:
+				problem = fmt.Sprintf("a is a proper prefix of b but CompareVals=%d", ab)
+			}
+			if problem != "" {
+				c.Violation(core.Replay{Kind: "property-failure", Class: "tuples-mixed", Summary: fmt.Sprintf("key tuples %v and %v: %s", a, b, problem), Input: fmt.Sprint(a, b)})
+			}
+		}
+	}
+	// transitivity over the pool
+	for _, a := range pool {
+		for _, b := range pool {
+			for _, d := range pool {
+				ab, e1 := cmp(a, b)
+				bd, e2 := cmp(b, d)
+				ad, e3 := cmp(a, d)
+				c.Evaluations++
+				if e1 == nil && e2 == nil && e3 == nil && ab <= 0 && bd <= 0 && ad > 0 {
+					c.Violation(core.Replay{Kind: "property-failure", Class: "tuples-mixed-transitive", Summary: fmt.Sprintf("%v ≤ %v ≤ %v but CompareVals(first, last) = %d", a, b, d, ad), Input: fmt.Sprint(a, b, d)})
+				}
+			}
+		}
+	}
 }
 
 const c17module = `module m { namespace "urn:m"; prefix m; revision 2020-01-01;
